@@ -1,5 +1,6 @@
 (* C05 - Termination happens once, after the last other callback, and is final. *)
-From Ergo Require Import Common.Base Sched.Model Sched.CountFacts Sched.TokenInv Sched.TokenProofs Sched.ReasonProofs.
+From Ergo Require Import Common.Base Sched.Model Sched.CountFacts Sched.TokenInv Sched.TokenProofs Sched.ReasonProofs
+  Sched.MetaModel Sched.MetaProofs.
 
 Definition reach sched named selfs initok others := run sched (init_cfg named selfs initok others).
 
@@ -60,6 +61,22 @@ Theorem C05_reason : forall sched named selfs initok others r,
   (exists m, In (mid m) (handled (sh c)) /\ (mbeh m = BErr r \/ (mbeh m = BPanic /\ r = rpanic))).
 Proof. intros. eapply reason_reflects_cause; eauto. Qed.
 Print Assumptions C05_reason.
+
+(* Meta-processes: Terminate begins at most once, and exactly once when every goroutine has
+   finished - whoever ended the meta-process (Start() returning, a handler error, the exit pushed
+   by the parent's termination), in any interleaving *)
+Theorem C05_meta_once : forall sched n r others,
+  Forall (fun p => m_init_pc p = true) others ->
+  mterms (msh (mrun true sched (m_init_cfg n r others))) <= 1.
+Proof. exact meta_terms_le1. Qed.
+Print Assumptions C05_meta_once.
+
+Theorem C05_meta_exactly_once_at_end : forall sched n r others,
+  Forall (fun p => m_init_pc p = true) others ->
+  let c := mrun true sched (m_init_cfg n r others) in
+  m_quiescent c = true -> mterms (msh c) = 1 /\ mst (msh c) = MTerm.
+Proof. exact meta_terminates_exactly_once. Qed.
+Print Assumptions C05_meta_exactly_once_at_end.
 
 (* non-vacuity: handler error racing two Kill calls: terminated once, reason = the error *)
 Example C05_example :
